@@ -7,4 +7,4 @@ out=$(cd "$repo" && "$GO" test -json -vet=off -count=1 -timeout 25m . ./set 2>&1
 pass=$(printf '%s\n' "$out" | grep -c '"Action":"pass","Package":"[^"]*","Test"')
 fail=$(printf '%s\n' "$out" | grep -c '"Action":"fail"')
 echo "baseline: pass=$pass fail=$fail"
-if [ "$fail" != 0 ] || [ "$pass" -lt 37 ]; then printf '%s\n' "$out" | grep -E '"Action":"(fail|output)"' | grep -v '"Output":"(=== |--- PASS|PASS|ok)' | head -40; exit 1; fi
+if [ "$fail" != 0 ] || [ "$pass" -lt 37 ]; then printf '%s\n' "$out" | grep -E '"Action":"(fail|output)"' | grep -v '"Output":"(=== |--- PASS|PASS|ok)' | grep -E "FAIL|fail|_test.go" | cut -c1-300 | head -12; exit 1; fi
